@@ -4,16 +4,29 @@ From BV Require Import Base.Prelude Model.Block Model.Burst Model.CursorResolver
 Local Open Scope N_scope.
 
 Lemma pass_low : forall c forked low seen l,
-  Forall (fun b => bnum b <= rn (cu_lib c)) low ->
+  Forall (fun b => bnum b <= rn (cu_lib c) /\ bid b <> ri (cu_blk c)) low ->
   resolver_run c true forked (mkRS seen false) (low ++ l) =
   (map (file_event SNewIrr) low ++ fst (resolver_run c true forked (mkRS seen false) l),
    snd (resolver_run c true forked (mkRS seen false) l)).
 Proof.
-  intros c forked low seen l H. induction H as [|a low Ha _ IH].
+  intros c forked low seen l H. induction H as [|a low [Ha Hid] _ IH].
   - cbn [app map]. destruct (resolver_run c true forked (mkRS seen false) l). reflexivity.
-  - cbn [app resolver_run]. unfold resolver_step at 1. cbn [r_resolved andb].
+  - cbn [app resolver_run]. unfold resolver_step at 1. cbn [r_resolved r_seen andb].
     replace (bnum a <=? rn (cu_lib c)) with true by (symmetry; apply N.leb_le; exact Ha).
+    replace (bid a =? ri (cu_blk c)) with false by (symmetry; apply N.eqb_neq; exact Hid).
     rewrite IH. reflexivity.
+Qed.
+
+(* the fix: the cursor block goes by at or below the LIB and is recognised there *)
+Lemma pass_low_hit : forall c forked seen b l,
+  bnum b <= rn (cu_lib c) -> bid b = ri (cu_blk c) ->
+  resolver_run c true forked (mkRS seen false) (b :: l) = (map (file_event SNewIrr) (b :: l), RsOk).
+Proof.
+  intros c forked seen b l Hb Hid.
+  cbn [resolver_run]. unfold resolver_step at 1. cbn [r_resolved r_seen andb].
+  replace (bnum b <=? rn (cu_lib c)) with true by (symmetry; apply N.leb_le; exact Hb).
+  replace (bid b =? ri (cu_blk c)) with true by (symmetry; apply N.eqb_eq; exact Hid).
+  rewrite run_resolved. reflexivity.
 Qed.
 
 Lemma pass_buffer : forall c forked mid seen l,
@@ -93,17 +106,32 @@ Qed.
 (* the deciding block is not the cursor block: not served *)
 Lemma through_miss : forall c forked low mid b post,
   Forall (fun x => bnum x <= rn (cu_lib c)) low ->
+  Forall (fun x => bid x <> ri (cu_blk c)) low ->
   Forall (fun x => rn (cu_lib c) < bnum x /\ bnum x < rn (cu_blk c)) mid ->
   Forall (fun x => rn (cu_lib c) < bnum x /\ rn (cu_blk c) <= bnum x) (b :: post) ->
   bid b <> ri (cu_blk c) ->
   resolver_run c true forked rs_init (low ++ mid ++ b :: post) =
     (map (file_event SNewIrr) (upto (rn (cu_lib c)) (low ++ mid ++ b :: post)), RsNotImplemented).
 Proof.
-  intros c forked low mid b post Hl Hm Ht Hid.
+  intros c forked low mid b post Hl Hlid Hm Ht Hid.
   rewrite (upto_low c low mid (b :: post) Hl Hm Ht).
-  unfold rs_init. rewrite pass_low by exact Hl. rewrite pass_buffer by exact Hm.
+  assert (Hl2 : Forall (fun x => bnum x <= rn (cu_lib c) /\ bid x <> ri (cu_blk c)) low).
+  { rewrite Forall_forall in *. intros x Hx. split; [apply Hl|apply Hlid]; exact Hx. }
+  unfold rs_init. rewrite pass_low by exact Hl2. rewrite pass_buffer by exact Hm.
   inversion Ht as [|? ? [Hb1 Hb2] _]; subst.
   rewrite pass_miss by assumption. cbn [fst snd]. rewrite app_nil_r. reflexivity.
+Qed.
+
+(* no block of `low` carries the id of a block that lies elsewhere in the delivery *)
+Lemma low_ids_differ : forall (D low others : list block) B,
+  NoDup (ids D) -> D = low ++ others -> In B others ->
+  Forall (fun x => bid x <> bid B) low.
+Proof.
+  intros D low others B Hn E HB. rewrite Forall_forall. intros x Hx Eid.
+  rewrite E, ids_app in Hn. clear E. induction low as [|y low IH]; [contradiction|].
+  cbn in Hn. inversion Hn as [|? ? Hy Hn']; subst. destruct Hx as [->|Hx].
+  - apply Hy. rewrite Eid. apply in_or_app. right. apply in_ids. exact HB.
+  - apply IH; assumption.
 Qed.
 
 Lemma c06_through_on_chain_proof : C06_through_on_chain.
@@ -120,6 +148,8 @@ Proof.
     - rewrite Forall_forall in Hl. apply Hl in Hin. lia.
     - apply in_app_or in Hin. destruct Hin as [Hin|Hin]; [|exact Hin].
       rewrite Forall_forall in Hm. apply Hm in Hin. lia. }
+  assert (Hlid : Forall (fun x => bid x <> bid B) low).
+  { apply (low_ids_differ D low (mid ++ top) B); [apply HDc|exact E|apply in_or_app; right; exact HBtop]. }
   destruct top as [|b post]; [contradiction|].
   assert (Eb : b = B).
   { apply (asc_in_eq (b :: post)); [exact Htasc|left; reflexivity|exact HBtop|].
@@ -127,7 +157,9 @@ Proof.
     destruct HBtop as [->|HBp]; [reflexivity|].
     destruct Htasc as [Hbp _]. rewrite Forall_forall in Hbp. apply Hbp in HBp. lia. }
   subst b. rewrite E.
-  unfold rs_init. rewrite pass_low by exact Hl. rewrite pass_buffer by exact Hm.
+  assert (Hl2 : Forall (fun x => bnum x <= rn (cu_lib c) /\ bid x <> ri (cu_blk c)) low).
+  { rewrite Forall_forall in *. intros x Hx. split; [apply Hl; exact Hx|]. rewrite <- Hid. apply Hlid. exact Hx. }
+  unfold rs_init. rewrite pass_low by exact Hl2. rewrite pass_buffer by exact Hm.
   inversion Ht as [|? ? [Hb1 Hb2] _]; subst.
   rewrite pass_hit by assumption. cbn [fst snd app].
   rewrite sb_all.
@@ -151,29 +183,37 @@ Proof.
       rewrite Forall_forall in Hm. apply Hm in Hin. lia. }
   destruct top as [|b post]; [contradiction|].
   rewrite E. apply through_miss; try assumption.
-  intro Eid. apply Hnot. rewrite <- Eid, E. apply in_ids.
-  apply in_or_app. right. apply in_or_app. right. left. reflexivity.
+  - rewrite Forall_forall. intros x Hx Eid. apply Hnot. rewrite <- Eid, E. apply in_ids.
+    apply in_or_app. left. exact Hx.
+  - intro Eid. apply Hnot. rewrite <- Eid, E. apply in_ids.
+    apply in_or_app. right. apply in_or_app. right. left. reflexivity.
 Qed.
 
-Lemma c06_through_at_lib_not_served_proof : C06_through_at_lib_not_served.
+Lemma c06_through_final_cursor_proof : C06_through_final_cursor.
 Proof.
-  intros merged forked start c stop bundle B Hc D Hin HB Hle (b0 & Hb0 & Hb0l).
+  intros merged forked start c stop bundle B Hc D Hin HB Hle.
   destruct (bref_eq _ _ HB) as [Hid Hnum].
   assert (HDc : chain_ok D) by (apply c06_delivery_segment_proof; exact Hc).
-  pose proof (chain_ok_asc _ HDc) as Hasc.
   unfold through_cursor_run. fold D.
-  destruct (through_split c D Hasc) as (low & mid & top & E & Hl & Hm & Ht & Htasc).
-  assert (Hb0top : In b0 top).
-  { rewrite E in Hb0. apply in_app_or in Hb0. destruct Hb0 as [Hin0|Hin0].
-    - rewrite Forall_forall in Hl. apply Hl in Hin0. lia.
-    - apply in_app_or in Hin0. destruct Hin0 as [Hin0|Hin0]; [|exact Hin0].
-      rewrite Forall_forall in Hm. apply Hm in Hin0. lia. }
-  destruct top as [|b post]; [contradiction|].
-  rewrite E. apply through_miss; try assumption.
-  (* b is above the LIB, B is not: different blocks of a chain have different ids *)
-  intro Eid. inversion Ht as [|? ? [Hb1 _] _]; subst.
-  assert (HbD : In b D) by (rewrite E; apply in_or_app; right; apply in_or_app; right; left; reflexivity).
-  destruct HDc as [_ Hn].
-  assert (b = B) by (apply (nodup_ids_eq D); try assumption; congruence).
-  subst b. lia.
+  destruct (in_split _ _ Hin) as (l1 & l2 & E).
+  pose proof (chain_ok_asc _ HDc) as Hasc. rewrite E in Hasc.
+  destruct (asc_app_inv _ _ Hasc) as (_ & _ & H12).
+  assert (Hl2 : Forall (fun x => bnum x <= rn (cu_lib c) /\ bid x <> ri (cu_blk c)) l1).
+  { pose proof (low_ids_differ D l1 (B :: l2) B (proj2 HDc) E (or_introl eq_refl)) as Hd.
+    rewrite Forall_forall in H12, Hd. rewrite Forall_forall. intros x Hx. split.
+    - specialize (H12 x Hx). pose proof (Forall_inv H12) as HxB. cbn beta in HxB. lia.
+    - rewrite <- Hid. apply Hd. exact Hx. }
+  rewrite E. unfold rs_init. rewrite pass_low by exact Hl2.
+  rewrite pass_low_hit by (try assumption; lia). cbn [fst snd].
+  rewrite <- map_app. reflexivity.
+Qed.
+
+(* the code before the fix: chain 1,2,3 from block 1, final target cursor on block 2 *)
+Lemma c06_through_final_cursor_unfixed_refuted_proof : C06_through_final_cursor_unfixed_refuted.
+Proof.
+  exists [mkBlock 11 1 1 0; mkBlock 21 2 11 1; mkBlock 31 3 21 2], 1, (mkCursor SIrr (mkR 21 2) (mkR 31 3) (mkR 21 2)), 3, 5,
+         (mkBlock 21 2 11 1).
+  split; [split; [cbn; repeat split; lia|cbn; repeat (constructor; [cbn; lia|]); constructor]|].
+  split; [vm_compute; tauto|]. split; [reflexivity|]. split; [cbn; lia|].
+  vm_compute. reflexivity.
 Qed.
